@@ -268,6 +268,20 @@ Definition exec_pool (m : mem) (param : Z) (r : regs) : option mem :=
 Definition ew_input_shift (elem : Z) : Z := if elem =? 1 then 20 else 15.
 Definition scale_reg (v : Z) : Z * Z := (v mod 4294967296, v / 4294967296).
 
+(* the value of one output element before zero point and clamp; a, b are operands A, B minus their zero points *)
+Definition ew_value (elem mode smode rmode : Z) (gs : bool) (opa_s opa_sh opb_s ofm_s ofm_sh a b : Z) : Z :=
+  let ish := ew_input_shift elem in
+  let wide (v : Z) := scale_tfl (v * 2 ^ ish) opa_s (opa_sh + ish) in
+  let narrow (v : Z) := v * 2 ^ (ish - 1) in
+  let pre_a := if smode =? 0 then a * (opa_s mod 65536) else if smode =? 1 then wide a else narrow a in
+  let pre_b := if smode =? 0 then b * opb_s else if smode =? 2 then wide b else narrow b in
+  let out (v : Z) := if gs then apply_scale rmode v ofm_s ofm_sh else v in
+  if mode =? 0 then out (a * b)
+  else if mode =? 1 then out (pre_a + pre_b)
+  else if mode =? 2 then out (pre_a - pre_b)
+  else if mode =? 3 then out (Z.min a b)
+  else out (Z.max a b).
+
 Definition exec_elementwise (m : mem) (mode : Z) (r : regs) : option mem :=
   let iv := ifm_view cmd0_NPU_OP_ELEMENTWISE r in
   let v2 := ifm2_view r in
@@ -297,21 +311,12 @@ Definition exec_elementwise (m : mem) (mode : Z) (r : regs) : option mem :=
   let '(opa_s, opa_sh) := scale_reg (r1 r cmd1_NPU_SET_OPA_SCALE) in
   let opb_s := (r1 r cmd1_NPU_SET_OPB_SCALE) mod 65536 in
   let '(ofm_s, ofm_sh) := scale_reg (r1 r cmd1_NPU_SET_OFM_SCALE) in
-  let ish := ew_input_shift (fv_elem iv) in
-  let wide (v : Z) := scale_tfl (v * 2 ^ ish) opa_s (opa_sh + ish) in
-  let narrow (v : Z) := v * 2 ^ (ish - 1) in
-  let pre_a (a : Z) := if smode =? 0 then a * (opa_s mod 65536) else if smode =? 1 then wide a else narrow a in
-  let pre_b (b : Z) := if smode =? 0 then b * opb_s else if smode =? 2 then wide b else narrow b in
-  let out (v : Z) := if global_scale r then apply_scale (rounding_mode r) v ofm_s ofm_sh else v in
   Some (write_ofm m ov
     (map (fun p => let '(y, xx, c) := p in
             let a := if rev then val2 y xx c else val1 y xx c in
             let b := if rev then val1 y xx c else val2 y xx c in
-            let v := if mode =? 0 then out (a * b)
-                     else if mode =? 1 then out (pre_a a + pre_b b)
-                     else if mode =? 2 then out (pre_a a - pre_b b)
-                     else if mode =? 3 then out (Z.min a b)
-                     else out (Z.max a b) in
+            let v := ew_value (fv_elem iv) mode smode (rounding_mode r) (global_scale r)
+                              opa_s opa_sh opb_s ofm_s ofm_sh a b in
             (y, xx, c, clampz lo hi (v + zpo)))
          (positions ov))).
 
